@@ -3,9 +3,11 @@ over real arithmetic (A1) with record models of layer / column / connection obje
 import z3
 from pyvc.engine import Obj, NVec
 from pyvc import library as L
-from pyvc.values import PyExc, to_real, z_and, z_or, z_not
+from pyvc.values import PyExc, to_real, to_int, z_and, z_or, z_not
 
-FUNCS = ['mulgrids.mulgrid.block_surface', 'mulgrids.mulgrid.block_volume', 'mulgrids.mulgrid.block_centre',
+FUNCS = ['t2grids.t2grid.fromgeo', 't2grids.t2grid.add_blocks', 't2grids.t2grid.add_atmosphereblocks', 't2grids.t2grid.add_underground_blocks', 't2grids.t2grid.add_connections',
+         'mulgrids.mulgrid.rectangular', 'mulgrids.mulgrid.add_layers', 'mulgrids.mulgrid.setup_block_name_index', 'mulgrids.mulgrid.setup_block_connection_name_index',
+         'mulgrids.mulgrid.set_column_num_layers', 'mulgrids.column.__init__', 'mulgrids.mulgrid.block_surface', 'mulgrids.mulgrid.block_volume', 'mulgrids.mulgrid.block_centre',
          'mulgrids.mulgrid.connection_params', 'mulgrids.mulgrid.get_tilt_vector', 'geometry.line_projection',
          'geometry.polygon_area', 't2grids.t2grid.add_vertical_layer_connections',
          't2grids.t2grid.add_horizontal_layer_connections', 't2grids.t2grid.add_connection']
@@ -339,7 +341,142 @@ def p_polygon_area(e, n):
     e.explore(prog, 'polygon_area')
 
 
+def _valid(e, cond, timeout=20000):
+    if isinstance(cond, bool):
+        return cond
+    s = z3.Solver(); s.set('timeout', timeout); s.add(*e.pc); s.add(z3.Not(cond))
+    return s.check() == z3.unsat
+
+
+def build_rect(e, nx, ny, nz, atm, convention, nsurf, block_order=None):
+    """A real rectangular geometry (mulgrid.rectangular run by the executor) with symbolic spacings and origin,
+    and symbolic surfaces on the first `nsurf` columns.  Returns (geo, spec) where spec holds the quantities the
+    statement talks about, computed from the inputs (not from the code)."""
+    m = e.load_module('mulgrids').globals
+    dx = [e.sym_real('dx%d' % k) for k in range(nx)]; dy = [e.sym_real('dy%d' % k) for k in range(ny)]; dz = [e.sym_real('dz%d' % k) for k in range(nz)]
+    org = [3, -7, e.sym_real('oz')]           # horizontal origin concrete (the centroid formula is quadratic in it); elevation origin symbolic
+    for v in dx + dy + dz:
+        e.assume(v > 0)
+    g0 = e.call(m['mulgrid'], [])
+    geo = e.call(e.getattr(g0, 'rectangular'), [list(dx), list(dy), list(dz)], {'atmos_type': atm, 'convention': convention, 'origin': list(org), 'block_order': block_order})
+    geo.fields['atmosphere_volume'] = e.sym_real('atmvol'); geo.fields['atmosphere_connection'] = e.sym_real('atmcon')
+    e.assume(z3.And(geo.fields['atmosphere_volume'] > 0, geo.fields['atmosphere_connection'] > 0))
+    bottoms = [org[2] - sum(dz[:k + 1]) for k in range(nz)]          # layer k+1 bottom
+    tops = [org[2]] + bottoms[:-1]
+    surf = {}
+    cols = geo.fields['columnlist']
+    for k in range(min(nsurf, len(cols))):
+        sv = e.sym_real('surf%d' % k)
+        e.assume(sv > bottoms[-1])                                    # anywhere from the bottom layer to above the top layer
+        e.setattr(cols[k], 'surface', sv)
+        e.call(e.getattr(geo, 'set_column_num_layers'), [cols[k]])
+        surf[k] = sv
+    if nsurf:
+        e.call(e.getattr(geo, 'setup_block_name_index'), [])
+        e.call(e.getattr(geo, 'setup_block_connection_name_index'), [])
+    spec = {'dx': dx, 'dy': dy, 'dz': dz, 'org': org, 'bottoms': bottoms, 'tops': tops,
+            'surf': [surf.get(j * nx + i, org[2]) for j in range(ny) for i in range(nx)],
+            'area': [dx[i] * dy[j] for j in range(ny) for i in range(nx)],
+            'cx': [org[0] + sum(dx[:i]) + dx[i] / 2 for j in range(ny) for i in range(nx)],
+            'cy': [org[1] + sum(dy[:j]) + dy[j] / 2 for j in range(ny) for i in range(nx)]}
+    return geo, spec
+
+
+def p_fromgeo_rect(e, arg):
+    """t2grid.fromgeo on a real rectangular geometry: every clause of the statement on every block and connection."""
+    nx, ny, nz, atm, convention, nsurf = arg
+    tag = '[%dx%dx%d,atm%d,conv%d,%d surfaces]' % (nx, ny, nz, atm, convention, nsurf)
+    def prog(e):
+        geo, S = build_rect(e, nx, ny, nz, atm, convention, nsurf)
+        tg = e.load_module('t2grids').globals
+        grid = e.call(e.getattr(e.call(tg['t2grid'], []), 'fromgeo'), [geo])
+        gf, tf = geo.fields, grid.fields
+        names = [b.fields['name'] for b in tf['blocklist']]
+        e.prove(names == gf['block_name_list'] and len(set(names)) == len(names) and len(names) >= 2, 'post:blocks_are_the_announced_blocks_in_order' + tag)
+        cnames = [tuple(b.fields['name'] for b in c.fields['block']) for c in tf['connectionlist']]
+        e.prove(cnames == gf['block_connection_name_list'] and len(set(cnames)) == len(cnames), 'post:connections_are_the_announced_connections_in_order' + tag)
+        natm = 1 if atm == 0 else (nx * ny if atm == 1 else 0)
+        colidx = dict((c.fields['name'], k) for k, c in enumerate(gf['columnlist']))
+        layidx = dict((l.fields['name'], k) for k, l in enumerate(gf['layerlist']))
+        # which (column, layer) each underground block is, through the geometry's own inverse naming
+        where = {}
+        okv, okc, total, why = True, True, 0, ''
+        for b in tf['blocklist'][natm:]:
+            nm = b.fields['name']
+            ci = colidx[e.call(e.getattr(geo, 'column_name'), [nm])]; li = layidx[e.call(e.getattr(geo, 'layer_name'), [nm])]
+            where[nm] = (ci, li)
+            bot, top, sf = S['bottoms'][li - 1], S['tops'][li - 1], S['surf'][ci]
+            # the block exists on this path, so its column surface is above the layer bottom; its top is the surface in the top block
+            is_top = z3.Or(sf <= top, li == 1)
+            btop = z3.If(is_top, sf, top)
+            if not _valid(e, to_real(b.fields['volume']) == S['area'][ci] * (btop - bot)):
+                okv, why = False, 'block %r volume %s' % (nm, b.fields['volume'])
+            cen = b.fields['centre']
+            wantz = z3.If(z3.And(sf <= top), (bot + sf) / 2, gf['layerlist'][li].fields['centre'])
+            if not _valid(e, z3.And(to_real(cen.items[0]) == S['cx'][ci], to_real(cen.items[1]) == S['cy'][ci], to_real(cen.items[2]) == wantz)):
+                okc, why = False, 'block %r centre %s' % (nm, cen.items)
+            total = total + to_real(b.fields['volume'])
+        e.prove(okv, 'post:block_volume_is_area_times_height_to_block_top' + tag)
+        e.prove(okc, 'post:block_centre_is_column_centre_and_mid_height' + tag)
+        e.prove(_valid(e, total == sum(S['area'][k] * (S['surf'][k] - S['bottoms'][-1]) for k in range(nx * ny))), 'post:total_rock_volume_is_sum_of_area_times_depth_to_surface' + tag)
+        e.prove(all(_valid(e, to_real(b.fields['volume']) == to_real(gf['atmosphere_volume'])) for b in tf['blocklist'][:natm]), 'post:atmosphere_blocks_have_the_atmosphere_volume' + tag)
+        okh, okvert, okatm, okcos = True, True, True, True
+        nh = nv = na = 0
+        for c in tf['connectionlist']:
+            b0, b1 = c.fields['block']
+            n0, n1 = b0.fields['name'], b1.fields['name']
+            d0, d1 = [to_real(x) for x in c.fields['distance']]
+            if n0 in where and n1 in where and where[n0][1] == where[n1][1]:
+                nh += 1
+                (c0, li), (c1, _) = where[n0], where[n1]
+                i0, j0, i1, j1 = c0 % nx, c0 // nx, c1 % nx, c1 // nx
+                xdir = j0 == j1
+                edge = S['dy'][j0] if xdir else S['dx'][i0]
+                half0, half1 = (S['dx'][i0] / 2, S['dx'][i1] / 2) if xdir else (S['dy'][j0] / 2, S['dy'][j1] / 2)
+                bot, top = S['bottoms'][li - 1], S['tops'][li - 1]
+                h = lambda ci: z3.If(z3.Or(S['surf'][ci] <= top, li == 1), S['surf'][ci], top) - bot
+                hmin = z3.If(h(c0) <= h(c1), h(c0), h(c1))
+                if not _valid(e, z3.And(to_real(c.fields['area']) == edge * hmin, d0 == half0, d1 == half1)):
+                    okh, why = False, 'connection %r area %s distances %s' % ((n0, n1), c.fields['area'], c.fields['distance'])
+                z0c, z1c = to_real(b0.fields['centre'].items[2]), to_real(b1.fields['centre'].items[2])
+                dc = to_real(c.fields['dircos'])
+                sep = half0 + half1
+                # cosine of the centre-to-centre line against gravity (0, 0, -1): -(z1 - z0) / |d|
+                if not _valid(e, z3.And(dc * dc * (sep * sep + (z1c - z0c) * (z1c - z0c)) == (z1c - z0c) * (z1c - z0c), (dc > 0) == (z1c < z0c), (dc == 0) == (z1c == z0c))):
+                    okcos, why = False, 'connection %r dircos %s' % ((n0, n1), c.fields['dircos'])
+                want_dir = 1 if xdir else 2
+                if c.fields['direction'] != want_dir and not _valid(e, to_int(c.fields['direction']) == want_dir):
+                    okh, why = False, 'connection %r direction %s' % ((n0, n1), c.fields['direction'])
+            elif n0 in where and n1 in where:
+                nv += 1
+                (c0, l0), (c1, l1) = where[n0], where[n1]
+                z0c, z1c = to_real(b0.fields['centre'].items[2]), to_real(b1.fields['centre'].items[2])
+                if not (c0 == c1 and l0 == l1 + 1 and _valid(e, z3.And(to_real(c.fields['area']) == S['area'][c0], to_real(c.fields['dircos']) == -1, d0 + d1 == z1c - z0c, d0 > 0, d1 > 0))
+                        and c.fields['direction'] == 3):
+                    okvert, why = False, 'connection %r area %s distances %s dircos %s' % ((n0, n1), c.fields['area'], c.fields['distance'], c.fields['dircos'])
+            else:
+                na += 1
+                ci = where[n0][0]
+                z0c = to_real(b0.fields['centre'].items[2])
+                if not (n0 in where and n1 not in where and _valid(e, z3.And(to_real(c.fields['area']) == S['area'][ci], to_real(c.fields['dircos']) == -1, d0 == S['surf'][ci] - z0c,
+                                                                         d1 == to_real(gf['atmosphere_connection']))) and c.fields['direction'] == 3):
+                    okatm, why = False, 'connection %r area %s distances %s' % ((n0, n1), c.fields['area'], c.fields['distance'])
+        for name, ok in (('post:horizontal_connection_area_edge_times_lower_height_and_perpendicular_distances', okh),
+                         ('post:horizontal_connection_cosine_is_that_of_the_centre_line_against_gravity', okcos),
+                         ('post:vertical_connection_column_area_cosine_minus_1_distances_add_up', okvert),
+                         ('post:atmosphere_connection_distance_to_surface_and_atmosphere_distance', okatm)):
+            if ok:
+                e.prove(True, name + tag)
+            else:
+                e.fail(name + tag, why)
+        e.prove(nh >= (1 if nx * ny > 1 else 0) and nv >= (nx * ny - min(nsurf, nx * ny)) * (nz - 1) and (na == nx * ny if atm in (0, 1) else na == 0), 'cover:each_connection_kind_present' + tag)
+    e.explore(prog, 'fromgeo_rect')
+
+
+RECTS = [(2, 1, 2, 0, 0, 1), (2, 1, 2, 1, 0, 2), (2, 2, 2, 2, 0, 1), (3, 1, 3, 0, 1, 1), (1, 2, 3, 1, 2, 1), (2, 1, 3, 2, 3, 2), (3, 2, 2, 0, 0, 0)]
+
 PROGRAMS = [('p_block_functions', (i, atm)) for i in (1, 2, 3) for atm in (0, 1, 2)]
+PROGRAMS += [('p_fromgeo_rect', r) for r in RECTS]
 PROGRAMS += [('p_atmosphere_blocks', a) for a in (0, 1, 2)]
 PROGRAMS += [('p_column_volume', None)]
 PROGRAMS += [('p_connection_params', i) for i in (1, 2)]
@@ -358,6 +495,8 @@ def replay(obname, model, result):
     """Native replay: a real one- or two-column geometry with the model's elevations."""
     m = model or {}
     prog = result['program']
+    if prog == 'p_fromgeo_rect':
+        return ("from contracts.c04_native import native_fromgeo_rect\nok, detail = native_fromgeo_rect(%r, %r)\n") % (tuple(result['arg']), m)
     if prog in ('p_block_functions', 'p_column_volume', 'p_vertical_connection', 'p_connection_params', 'p_horizontal_connection', 'p_connection_names') and 'z0' in m:
         arg = result['arg']
         atm = arg[1] if isinstance(arg, tuple) else (arg if prog == 'p_connection_names' else 2)
